@@ -33,9 +33,16 @@
      C04_prints_admitted_all     CONTRACTION as well: every parsed, accepted, closed program with one provider name per declaration
                                  (drop, split, all connectives), both polarized modes (C04_refines_sax_all: one model step is zero or
                                  one step of Sax.v with its structural rules)
+     C04_prints_admitted_np_plain  NON-POLARIZED mode, plain programs (no forward / drop / split, one provider name per
+                                 process): an NP run IS the synchronous run (PlainNP.plain_run_eq)
+     C04_prints_admitted_np_fwd  NON-POLARIZED mode, programs with FORWARDS (no drop, no split, one provider name per process):
+                                 Control f t is Sax's rule id (C04_refines_sax_np_control); per step C04_refines_sax_np;
+                                 with C03's NP determinism: C04_results_unique_admitted_np_fwd
    What rests on the correspondence only: that the real interpreter's prints and their order are the
    model's (suite `run`); results for programs with multi-name provider declarations (prc[a,b]); results in
-   the non-polarized mode; uniqueness of the multiset. *)
+   the non-polarized mode for programs with drop (NP reclaims nothing: the dropped subtree stays as objects that
+   Sax.v may still step, next to a pending drop request that never fires — a simulation up to such garbage is
+   not proved) or split. *)
 From stdpp Require Import gmap strings.
 Require Import Grits.Base Grits.Forms Grits.STypes Grits.Runtime.
 Require Import Grits.spec.Sax Grits.proofs.Causality Grits.proofs.SaxRefine Grits.proofs.SaxInv Grits.proofs.C04Examples.
@@ -286,6 +293,52 @@ Proof. exact prints_admitted_np_plain_text. Qed.
 Example C04_ex_np_plain : c04_np_plain_text RtTheorems.example_text = true.
 Proof. vm_compute. reflexivity. Qed.
 
+(* NP beyond plain programs: FORWARDS (fwf_src_b on the SOURCE: no drop, no split in any body, one provider name per
+   process; forwards allowed).  In NP a forward offers its providers on the control channel of its client channel and
+   the provider of that channel adopts them (Control f t): this IS the rule id of spec/Sax.v (provider renaming), without
+   a FWD message in between (C04_refines_sax_np_control).  Every other NP step of the class is one asynchronous step
+   (Run) or two (Rendezvous), read by C04_refines_sax_all. *)
+Theorem C04_refines_sax_np_control : forall D F teq c f t c',
+  InvX D F teq c -> bufs_empty c -> FwCfg c -> step NP D F c (Control f t) = SStep c' ->
+  sax_step F true (α c) [] (α c') /\ labels c' = labels c.
+Proof. exact refines_control. Qed.
+
+Theorem C04_refines_sax_np : forall D F teq, teq_laws D teq -> funs_typed D F teq -> TopoStep.funs_aff F -> nofd_funs F ->
+  forall c ch c', InvX D F teq c -> bufs_empty c -> FwCfg c -> step NP D F c ch = SStep c' ->
+  exists ls, sax_steps F true (α c) ls (α c') /\ labels c' = labels c ++ ls.
+Proof. exact refines_np_step. Qed.
+
+Theorem C04_fwcfg_step_np : forall D F, fwf_funs F ->
+  forall c ch c', FwCfg c -> bufs_empty c -> step NP D F c ch = SStep c' -> FwCfg c'.
+Proof. exact fw_step_np. Qed.
+
+Theorem C04_prints_admitted_np_fwd : forall txt p p',
+  parse_string txt = POk p -> typecheck p = Accept p' -> in_fragment p' -> fwf_src_b p = true ->
+  forall fuel pick, exists C',
+    sax_steps (p_funs p') true (sax_init p')
+      (labels (res_config (exec_run fuel pick NP (p_types p') (p_funs p') (init_config p')))) C'.
+Proof. exact prints_admitted_np_fwd. Qed.
+
+Theorem C04_results_unique_admitted_np_fwd : forall txt p p' pick1 f1 t1,
+  parse_string txt = POk p -> typecheck p = Accept p' -> in_fragment p' -> fwf_src_b p = true ->
+  exec_run f1 pick1 NP (p_types p') (p_funs p') (init_config p') = RQuiescent t1 ->
+  (exists C', sax_steps (p_funs p') true (sax_init p') (labels t1) C') /\
+  (forall pick2 f2, (f1 <= f2)%nat ->
+     exists t2, exec_run f2 pick2 NP (p_types p') (p_funs p') (init_config p') = RQuiescent t2 /\ labels t2 ≡ₚ labels t1).
+Proof. exact results_unique_admitted_np_fwd. Qed.
+
+(* one computable verdict on the text (driver `c04npfwd`); ALL THREE modes *)
+Theorem C04_prints_admitted_np_fwd_text : forall txt, c04_np_fwd_text txt = true ->
+  exists p p', parse_string txt = POk p /\ typecheck p = Accept p' /\
+  forall md fuel pick, exists C',
+    sax_steps (p_funs p') true (sax_init p')
+      (labels (res_config (exec_run fuel pick md (p_types p') (p_funs p') (init_config p')))) C'.
+Proof. exact prints_admitted_np_fwd_text. Qed.
+
+(* non-vacuity: the C04 example program has two forwards (and is not plain) *)
+Example C04_ex_np_fwd : c04_np_fwd_text ex_text = true /\ c04_np_plain_text ex_text = false.
+Proof. vm_compute. split; reflexivity. Qed.
+
 Theorem C04_tres_from_typing : forall D F teq, teq_laws D teq -> funs_typed D F teq ->
   forall Δ c, cfg_typed D F teq Δ c -> Topo c -> tres D c.
 Proof. exact tres_typed_topo. Qed.
@@ -401,6 +454,13 @@ Print Assumptions C04_prints_admitted_np_plain.
 Print Assumptions C04_results_unique_admitted_np_plain.
 Print Assumptions C04_prints_admitted_np_plain_text.
 Print Assumptions C04_ex_np_plain.
+Print Assumptions C04_refines_sax_np_control.
+Print Assumptions C04_refines_sax_np.
+Print Assumptions C04_fwcfg_step_np.
+Print Assumptions C04_prints_admitted_np_fwd.
+Print Assumptions C04_results_unique_admitted_np_fwd.
+Print Assumptions C04_prints_admitted_np_fwd_text.
+Print Assumptions C04_ex_np_fwd.
 Print Assumptions C04_tres_from_typing.
 Print Assumptions C04_core_invariant_gives_Inv.
 Print Assumptions C04_refines_sax_core.
